@@ -9,7 +9,7 @@ RULE = ("seeded scenarios of 1-3 producers (unique values), 1-4 consumers (`asyn
         "cancel/interrupt/close, kernel event). Non-trivial = at least one consumer received a "
         "message; distinct = distinct sequence of (actor, channel event, value) plus fault "
         "position.")
-BUDGET = {"quick": {"cases": 400, "wall_s": 100, "chunk": 2, "per_group": 25},
+BUDGET = {"quick": {"cases": 400, "wall_s": 240, "chunk": 2, "per_group": 25},
           "thorough": {"cases": 4000, "wall_s": 1500, "chunk": 5, "per_group": 400}}
 ASSUMPTIONS = ["a consumer is subscribed from the activation in which its iteration / await "
                "starts", "the value of a put torn down before returning is optional"]
